@@ -1973,3 +1973,45 @@ def r16_9(rep):
                   "the return type is written around %s" % what if ok else
                   "the return type is serialised with nothing pending and the name is written after it: a function returning a pointer to a "
                   "function or array gets `int (*) (int) f__extern(void)`, which is not C", sb.loc(c))
+
+
+@RULES.rule("R16.10", "struct / union / enum tags are written as C spells them, function-pointer parameters keep their `...`", floor=4)
+def r16_10(rep):
+    """The wrapper is C source: `struct type`, `struct Inner` (declared inside `struct Outer`) and, under `--c-naming`, `struct foo`
+    have to be written with the tag the header uses.  `Item::canonical_name` is bindgen's RUST name (`type_`, `Outer_Inner`,
+    `struct_foo`): `int f(struct type_ t)` names an incomplete type and does not compile.  Likewise a parameter of type
+    `int (*)(int, ...)` has to keep its ellipsis, or an incompatible function pointer is passed on."""
+    tb = serializer(rep, TYPE)
+    km = [n for n in tb.nodes if n["k"] == "Match" and (tb.ty(n["scrut"]) or "").replace("&", "") == "ir::ty::TypeKind"]
+    rep.need(km, "match over TypeKind in <Type as CSerialize>::serialize")
+    top = km[0]
+    n = 0
+    for a in top["arms"]:
+        kinds = [v.split("::")[-1] for v in pat_variants(a["pat"])]
+        if not set(kinds) & {"Comp", "Enum"}:
+            continue
+        for c in tb.calls(lambda x: x["k"] == "MCall" and x["name"] == "write_fmt", a["body"]):
+            ps = fmt_pieces(tb, c)
+            if not ps:
+                continue
+            lits_ = [x for k_, x in ps if k_ == "lit"]
+            if not any(re.search(r"\b(struct|union|enum)\b", l) for l in lits_):
+                continue
+            for k_, x in ps:
+                if k_ != "arg":
+                    continue
+                n += 1
+                src = tb.canon(x, 8)
+                ok = "ir::ty::Type::name(param:self)" in src or "param:self.ir::ty::Type::name" in src
+                rep.check(ok, "c-tag:%s@Type::serialize#%d" % ("|".join(sorted(set(kinds) & {"Comp", "Enum"})), n),
+                          "the tag is the type's C name (Rust name only as a fall-back for unnamed types)" if ok else
+                          "the tag is `%s`: bindgen's Rust-side name, not the tag the C header declares" % src[:70], tb.loc(c))
+    rep.need(n >= 3, "`struct {name}` / `union {name}` / `enum {name}` writes in the Comp and Enum arms")
+    fa = [a for a in top["arms"] if any(v.endswith("TypeKind::Function") for v in pat_variants(a["pat"]))]
+    rep.need(fa, "the Function arm of <Type as CSerialize>::serialize")
+    body = fa[0]["body"]
+    dots = [c for c in tb.calls(lambda x: x["k"] == "MCall" and x["name"] in ("write_fmt", "write_all", "write_str"), body)
+            if any(y["k"] == "Lit" and isinstance(y.get("v"), str) and "..." in y["v"] for y in tb.walk(c))]
+    ok = bool(dots) and all(any(kind == "cond" and pol and "FunctionSig::is_variadic" in tb.canon(g, 5) for pol, kind, g in tb.guards(d_)) for d_ in dots)
+    rep.check(ok, "fnptr-ellipsis@Type::serialize", "a variadic function type is written with `, ...`" if ok else
+              "the Function arm never writes `...`: `int (*cb)(int, ...)` is serialised as `int (*cb) (int)`", tb.loc(body))
